@@ -78,10 +78,21 @@ def finish(pid, P, props, tier, seed, results, known, t0, warnings, scratch_root
         for u in r.get("undecided", []):
             undecided.append("%s: %s" % (r["unit"], u))
         # a function that the edited source newly calls was taken without a contract: callers cannot be decided
-        new_fns = [a.split("\n")[-1] for a in r.get("auto_resolved", []) if " fn " in a.split("\n")[-1] or a.split("\n")[-1].startswith("@@take fn")]
+        # (helpers expanded at their call sites, `@@inline`, are exact and need no such caution)
+        new_fns = [a.split("\n")[-1] for a in r.get("auto_resolved", []) if a.split("\n")[-1].startswith("@@take") and " fn " in a.split("\n")[-1]]
         if new_fns and r.get("failures"):
             undecided.append("%s: the source now calls function(s) without a contract (%s); %d obligation(s) could not be decided" % (r["unit"], "; ".join(new_fns), len(r["failures"])))
             r = dict(r, failures=[])
+        # a closure that the pinned tree does not have and that carries no contract: Verus knows nothing about its result,
+        # so failing obligations of the function that contains it are not evidence of a violation
+        nc = r.get("new_uncontracted_closures") or []
+        if nc and r.get("failures"):
+            fns = set(c["fn"] for c in nc)
+            hit = [f for f in r["failures"] if str(f.get("function") or "") in fns or any(str(f.get("label") or "").startswith(x + "::") for x in fns)]
+            if hit:
+                undecided.append("%s: %s now contain(s) a closure without a contract (passed to %s); %d obligation(s) of that function could not be decided" % (
+                    r["unit"], ", ".join(sorted(fns)), ", ".join(sorted(set("`%s`" % c["passed_to"] for c in nc))), len(hit)))
+                r = dict(r, failures=[f for f in r["failures"] if f not in hit])
         # skeletons of helper functions that are not under contract: obligations failing INSIDE them are violations
         # (an event whose precondition is false); obligations of their callers cannot be decided
         if r.get("auto_skeletons") and r.get("failures"):
